@@ -756,7 +756,10 @@ class Engine:
         if isinstance(v, VStr) and not hasattr("", attr):
             s.raise_(st, "AttributeError", out, node)
             return []
-        if isinstance(v, (VStr, VFile, VCList, VList, VDict, VObj, VConst, VTuple)):
+        if isinstance(v, VObj):
+            s.may_raise_any(st, out, node, "attribute of opaque object")
+            return [(st, VObj(z3.Function("py_attr_" + attr, PyObj, PyObj)(v.t)))]
+        if isinstance(v, (VStr, VFile, VCList, VList, VDict, VConst, VTuple)):
             return [(st, VBound(v, attr))]
         raise OutOfSubset("attribute %s of %r" % (attr, v))
 
